@@ -629,7 +629,10 @@ def main():
             # the text of a whole function is pinned by its hash (code outside the verifier's reach whose shape the contracts assume)
             try:
                 sf = extract.SourceFile.get(pin["file"])
-                it = sf.find(pin["fn"])
+                if "impl" in pin:
+                    it = [x for x in sf.impl_items(sf.find_impl(pin["impl"])) if x.kind == "fn" and x.name == pin["fn"][3:].strip()][0]
+                else:
+                    it = sf.find(pin["fn"])
                 ok = hashlib.sha256(sf.src[it.start:it.end].encode()).hexdigest()[:16] == pin["sha"]
             except Exception:
                 ok = False
